@@ -268,7 +268,7 @@ impl Check for C03 {
         tier.pick(Duration::from_secs(200), Duration::from_secs(1500))
     }
     fn required_counters(&self, _tier: Tier) -> Vec<&'static str> {
-        vec!["uploads:all-conditions-hold", "uploads:quote-for-other-address", "uploads:not-paid-on-chain", "uploads:payee-not-close", "unpaid-uploads", "rpc-calls", "proof-presented-twice:payee-left-the-routing-table-since-the-first-presentation", "realnet:uploads:valid-payment", "realnet:uploads:faulty-payment"]
+        vec!["uploads:all-conditions-hold", "uploads:quote-for-other-address", "uploads:not-paid-on-chain", "uploads:payee-not-close", "unpaid-uploads", "rpc-calls", "proof-presented-twice:payee-left-the-routing-table-since-the-first-presentation"]
     }
     fn lane_cases(&self, tier: Tier) -> u64 {
         tier.pick(6, 48)
